@@ -46,6 +46,9 @@ structure Calc where
   eraName : String
   /-- first month of the year in calendar numbering (7 for Hebrew scriptural) -/
   firstMonth : Int
+  /-- least year the year search of `_get_year` may visit: `min_year`, except where the tables carry a sentinel row
+      below `min_year` that the estimate can land on (Um Al Qura: the estimate for the first days of 1318 is 1317) -/
+  searchLo : Int := minYear
 
 /-- fuel of the two correction loops of `_get_year` (the theorems show ≤ 9 steps are ever needed) -/
 def yearFuel : Nat := 64
